@@ -7,6 +7,14 @@ V = "/verif"
 ALL = ["C%02d" % i for i in range(1, 21)]
 
 CHECKS = {
+ "C19": dict(level="exploration",
+   text="Configuration exploration through the real fitgen command built from the tree: every bundled workbook in both input forms twice (deviation 0) and every single-row toggle of the product-profile column that an independent dependency analysis allows (deviation 1; quick tier: component/subfield-bearing messages of the newest workbook). Each output is checked for determinism, declared SDK version, agreement with an independent stdlib reading of the workbook (go/ast audit) and for compiling together with the support code (go/types, errors classified).",
+   note="Dependency-closed subsets beyond deviation 1 are not enumerated (2^1000). Compile check is go/types with the source importer, not the gc back end. Stock output vs today's support code skew is a listed finding per workbook.",
+   technique="deviation-bounded exhaustive configuration enumeration through the real command with an independent workbook reader as oracle", ref="3 C19"),
+ "C20": dict(level="exploration",
+   text="Exhaustive enumeration of every constant of every integer type in types.go and of all remaining values of 8- and 16-bit types (boundary values for wider types) through a generated program that calls String(); plus byte-for-byte regeneration of types_string.go with the repository's own stringer.",
+   note="Type and constant inventory comes from go/types on types.go; the regeneration driver is added by build overlay (nothing written to /repo).",
+   technique="exhaustive input enumeration + regeneration (translation) comparison", ref="3 C20"),
  "C08": dict(level="model_checking",
    text="Explicit exploration of call histories: every sequence up to the bound over a 13-call pool chosen to collide on package-level state, each history executed in its own fresh process; every position must return what the same call returns when made first in a fresh process, and solo calls are repeated across processes (Encode determinism). Behavioural states (vectors of one-step futures) are counted: a pure implementation has exactly one.",
    note="Fresh-process baseline means no in-process reset has to be trusted. The package-level distance accumulator (listed finding) is shadowed and attributed exactly. Map-iteration nondeterminism is observed through repeated fresh-process runs, not enumerated.",
